@@ -466,6 +466,32 @@ def oracles(ctx: Ctx) -> None:
         ctx.count("merge-law")
         if not ok:
             ctx.report("merge-law", "Settings.merge does not combine lists / or booleans / prefer command-line scalars", {"old": str(old), "new": str(new), "merged": str(m)})
+    # ... and on the selection lists: combined too, unless the command line introduces an all-switch the config file does not have
+    # (then, as the tests pin, the config file's enable/disable lists do not apply); a switch present on both sides introduces nothing
+    from refurb.error import ErrorCategory, ErrorCode
+    pool = [ErrorCode(100), ErrorCode(123), ErrorCode(184), ErrorCategory("readability"), ErrorCategory("pathlib")]
+    for _ in range(ctx.budget(600, 6000)):
+        def sel():
+            ea, da = rng.choice([(False, False), (False, False), (True, False), (False, True)])
+            return Settings(enable=set(rng.sample(pool, rng.randrange(0, 3))), disable=set(rng.sample(pool, rng.randrange(0, 3))),
+                            ignore=set(rng.sample(pool, rng.randrange(0, 3))), enable_all=ea, disable_all=da)
+        old, new = sel(), sel()
+        if (old.enable_all or new.enable_all) and (old.disable_all or new.disable_all):
+            continue
+        m = Settings.merge(old, new)
+        introduces = (new.enable_all and not old.enable_all) or (new.disable_all and not old.disable_all)
+        want_disable = set(new.disable) if introduces else set(old.disable) | set(new.disable)
+        want_enable = set(new.enable) if introduces else (set(old.enable) | set(new.enable)) - want_disable
+        ok = (set(m.disable) == want_disable and set(m.enable) == want_enable and set(m.ignore) == set(old.ignore) | set(new.ignore)
+              and m.enable_all == (old.enable_all or new.enable_all) and m.disable_all == (old.disable_all or new.disable_all))
+        ctx.case(("merge-selection", str(old), str(new)), nontrivial=True)
+        ctx.count("merge-law:selection" + (":switch-on-both-sides" if (old.enable_all and new.enable_all) or (old.disable_all and new.disable_all) else ""))
+        if not ok:
+            ctx.report("merge-law:selection", "Settings.merge does not combine the selection lists of config file and command line as documented",
+                       {"config": {"enable": sorted(map(str, old.enable)), "disable": sorted(map(str, old.disable)), "ignore": sorted(map(str, old.ignore)), "enable_all": old.enable_all, "disable_all": old.disable_all},
+                        "command_line": {"enable": sorted(map(str, new.enable)), "disable": sorted(map(str, new.disable)), "ignore": sorted(map(str, new.ignore)), "enable_all": new.enable_all, "disable_all": new.disable_all},
+                        "merged": {"enable": sorted(map(str, m.enable)), "disable": sorted(map(str, m.disable)), "ignore": sorted(map(str, m.ignore))},
+                        "expected": {"enable": sorted(map(str, want_enable)), "disable": sorted(map(str, want_disable))}})
     # clean failure through the real CLI
     with tempfile.TemporaryDirectory(prefix="c14-") as td:
         f = Path(td) / "t.py"
